@@ -43,7 +43,7 @@ CLAUSES = {
     "and it negotiates nothing it did not offer": "client_negotiates_only_offered (after fix 58a3637 of D16)",
 }
 PARALLEL = True
-CASE_TIMEOUT = 60
+CASE_TIMEOUT = 120
 GUID = b"258EAFA5-E914-47DA-95CA-C5AB0DC85B11"
 KEY = "dGhlIHNhbXBsZSBub25jZQ=="
 FIELDS = ["upgrade", "connection", "origin", "secOrigin", "host", "key", "version", "protocols", "extensions"]
